@@ -1,1 +1,133 @@
-/-! C03 — property theorems (placeholder until the model exists). -/
+import EupsModel.Lemmas.Vro
+/-! C03 — the version chosen is the one the Version Resolution Order designates.
+Property theorems only; the model is `Model/Vro.lean`, helper lemmas are in `Lemmas/Vro.lean`. -/
+namespace EupsModel.C03
+open EupsModel EupsModel.Vro
+
+/-! ## a small database for the non-vacuity examples
+
+stack 0: `p 1.0` (Linux), tagged `stable`; stack 1: `p 1.0`, `p 2.0` (Linux), `p 3.0` (generic),
+`current -> 2.0` (Linux), `current -> 3.0` (generic). -/
+def sP : Str := [112]
+def sLinux : Str := [76, 105, 110, 117, 120]
+def sGeneric : Str := [103, 101, 110, 101, 114, 105, 99]
+def sCurrent : Str := [99, 117, 114, 114, 101, 110, 116]
+def sStable : Str := [115, 116, 97, 98, 108, 101]
+def sBeta : Str := [98, 101, 116, 97]
+def v10 : Str := [49, 46, 48]
+def v20 : Str := [50, 46, 48]
+def v30 : Str := [51, 46, 48]
+def v99 : Str := [57, 46, 57]
+def exDb : Db :=
+  [ { decls := [⟨sP, v10, sLinux⟩], tags := [⟨sStable, sP, sLinux, v10⟩] },
+    { decls := [⟨sP, v10, sLinux⟩, ⟨sP, v20, sLinux⟩, ⟨sP, v30, sGeneric⟩],
+      tags := [⟨sCurrent, sP, sLinux, v20⟩, ⟨sCurrent, sP, sGeneric, v30⟩] } ]
+def exCtx : Ctx := mkCtx simpleOrd [sCurrent, sStable, sBeta] exDb .files sLinux []
+def exReq (version : Option Str) (depth : Nat) : Req :=
+  { name := sP, version := version, vexpr := none, depth := depth, flavor := sLinux,
+    ignoreVersions := false, already := none }
+/-- `type:exact commandLine version versionExpr current` -/
+def defaultVro : List Str := [kTypeExact, kCommandLine, kVersion, kVersionExpr, sCurrent]
+
+/-! ## first match -/
+
+/-- `findProductFromVRO` returns a product exactly when some entry of the VRO yields one and every
+entry before it said "continue" (none yielded a product, none of the version entries gave the
+request up, none raised); the product and reason are that entry's, up to the "an earlier reason
+outranks a later one" rule for a product this command has already set up. -/
+theorem C03_first_match (C : Ctx) (r : Req) (vro : List Str) (h : Hit) :
+    find C r vro = .ok (some h) ↔
+      ∃ (h0 : Hit) (pre post : List Str),
+        vro = pre ++ h0.entry :: post ∧
+        lookupEntry C r h0.entry post = .ok (.hit h0.prod h0.reason) ∧
+        (∀ a x b, pre = a ++ x :: b → lookupEntry C r x (b ++ h0.entry :: post) = .ok .skip) ∧
+        h = applyAlready r vro h0 := by
+  unfold find
+  constructor
+  · intro hf
+    cases hw : walk C r vro with
+    | error err => simp [hw] at hf
+    | ok o =>
+      cases o with
+      | none => simp [hw] at hf
+      | some h0 =>
+        simp [hw] at hf
+        obtain ⟨pre, post, h1, h2, h3⟩ := (walk_hit_iff C r vro h0).mp hw
+        exact ⟨h0, pre, post, h1, h2, h3, hf.symm⟩
+  · rintro ⟨h0, pre, post, h1, h2, h3, rfl⟩
+    have hw := (walk_hit_iff C r vro h0).mpr ⟨pre, post, h1, h2, h3⟩
+    simp [hw]
+
+/-- With nothing set up beforehand the answer is the first matching entry's, as it stands. -/
+theorem C03_first_match_fresh (C : Ctx) (r : Req) (vro : List Str) (h : Hit) (hr : r.already = none) :
+    find C r vro = .ok (some h) ↔
+      ∃ (pre post : List Str),
+        vro = pre ++ h.entry :: post ∧
+        lookupEntry C r h.entry post = .ok (.hit h.prod h.reason) ∧
+        (∀ a x b, pre = a ++ x :: b → lookupEntry C r x (b ++ h.entry :: post) = .ok .skip) := by
+  rw [C03_first_match]
+  constructor
+  · rintro ⟨h0, pre, post, h1, h2, h3, rfl⟩
+    have : applyAlready r vro h0 = h0 := by simp [applyAlready, hr]
+    rw [this]
+    exact ⟨pre, post, h1, h2, h3⟩
+  · rintro ⟨pre, post, h1, h2, h3⟩
+    exact ⟨h, pre, post, h1, h2, h3, by simp [applyAlready, hr]⟩
+
+/-- Nothing is returned exactly when every entry said "continue", or the first entry that did not
+is a version entry giving the request up. -/
+theorem C03_no_match (C : Ctx) (r : Req) (vro : List Str) :
+    find C r vro = .ok none ↔
+      (∀ a x b, vro = a ++ x :: b → lookupEntry C r x b = .ok .skip) ∨
+      ∃ pre e post, vro = pre ++ e :: post ∧ lookupEntry C r e post = .ok .abort ∧
+        (∀ a x b, pre = a ++ x :: b → lookupEntry C r x (b ++ e :: post) = .ok .skip) := by
+  have hw := walk_none_iff C r vro
+  unfold AllSkip at hw
+  simp only [List.append_nil] at hw
+  rw [← hw]
+  unfold find
+  cases walk C r vro with
+  | error err => simp
+  | ok o => cases o <;> simp
+
+/-- non-vacuity: on the default VRO, no version named, `current` (the fifth entry) answers with the
+version tagged in stack 1 — stack 0 has no `current` — after four entries that said "continue" -/
+example : find exCtx (exReq none 0) defaultVro = .ok (some ⟨⟨v20, sLinux, 1⟩, sCurrent, sCurrent⟩) := by
+  decide
+
+/-! ## a request that names a version does not fall through -/
+
+/-- Once a request names a version or an expression, whatever stands behind the last version-type
+entry of the VRO is never consulted: looking the product up with the whole VRO gives the answer of
+the VRO cut after that entry — whatever tags follow, and whatever they are assigned to. -/
+theorem C03_named_request_never_falls_through (C : Ctx) (r : Req) (pre : List Str) (e : Str)
+    (post : List Str) (hn : r.named.isSome = true) (he : isVT e = true)
+    (hpost : ∀ x ∈ post, isVT x = false) :
+    find C r (pre ++ e :: post) = find C r (pre ++ [e]) := by
+  have hw := walk_cut C r pre e post hn he hpost
+  unfold find
+  rw [hw]
+  cases hw' : walk C r (pre ++ [e]) with
+  | error err => rfl
+  | ok o =>
+    cases o with
+    | none => rfl
+    | some h =>
+      have hm := walk_entry_mem hw'
+      have : pre ++ e :: post = (pre ++ [e]) ++ post := by simp
+      simp only [this, applyAlready_append r (pre ++ [e]) post h hm]
+
+/-- In particular: when the version entries find nothing, the request fails, whatever tags follow. -/
+theorem C03_named_request_fails (C : Ctx) (r : Req) (pre : List Str) (e : Str) (post : List Str)
+    (hn : r.named.isSome = true) (he : isVT e = true) (hpost : ∀ x ∈ post, isVT x = false)
+    (hnone : find C r (pre ++ [e]) = .ok none) : find C r (pre ++ e :: post) = .ok none := by
+  rw [C03_named_request_never_falls_through C r pre e post hn he hpost, hnone]
+
+/-- non-vacuity: `p 9.9` is not declared; `current` stands behind `versionExpr` on the default VRO
+and would answer `2.0` — the request fails instead (and `p` without a version does get `2.0`). -/
+example : (exReq (some v99) 1).named.isSome = true ∧ isVT kVersionExpr = true ∧
+    (∀ x ∈ [sCurrent], isVT x = false) ∧
+    find exCtx (exReq (some v99) 1) ([kTypeExact, kCommandLine, kVersion] ++ kVersionExpr :: [sCurrent]) = .ok none := by
+  decide
+
+end EupsModel.C03
